@@ -126,6 +126,13 @@ class RSTransport(asyncio.Protocol):
             except TaskTimeout:
                 await self.abort()
                 await self._closed_event.wait()
+            except asyncio.CancelledError:
+                # The wait was cut short: the caller was cancelled, for instance by the
+                # processing timeout of the request handler that called close().  Nobody would
+                # force the close any more, so do it now rather than leave the connection
+                # half-closed for ever.
+                await self.abort()
+                raise
 
     async def abort(self):
         if self._asyncio_transport:
